@@ -10,6 +10,7 @@ from anytree import util
 from . import struct
 from .queries import NAV_ATTRS, lib_nav_one, ref_commonancestors, ref_nav, ref_sibling
 from .struct import Violation, brief_cfg, simplify_cfg, simplify_op  # noqa: F401
+from .world import OpGuard, Watchdog
 
 KNOWN_OPEN = set()
 
@@ -93,6 +94,10 @@ def run(cfg, ops=None, rng=None):
     def extra(step, world, model, res, op, status, exc):
         res.cfg_qseed = cfg.get("qseed", 0)
         res.cfg_part = cfg.get("part")
-        battery(step, world, model, res, op, status, exc)
+        try:
+            with OpGuard(5.0 + 0.05 * len(world.nodes), 900):
+                battery(step, world, model, res, op, status, exc)
+        except Watchdog as wd:
+            raise Violation("C04", "hang", step, "nav:hang", "after step %d %s: a navigation query does not terminate (%s)" % (step, op, wd))
 
     return struct.run(cfg, ops=ops, rng=rng, extra=extra)
